@@ -128,6 +128,8 @@ var props = map[string]propSpec{
 		Rule: "a run counts when >=1 transfer request was accepted by a leader (not rejected by validation); distinct by schedule hash"},
 	"C17": {ID: "C17", Engine: "raft", Profiles: []profShare{{"mix", 3}, {"crash", 2}, {"member", 2}, {"snap", 2}, {"elect", 1}},
 		Rule: "a run counts when >=3 fault events happened before the heal and the cluster then had to settle (liveness evaluated) or the stability clause was evaluated; distinct by schedule hash"},
+	"C20": {ID: "C20", Engine: "raft", Profiles: []profShare{{"identity", 1}},
+		Rule: "a run counts when >=1 dial was delivered to a node other than the identity the dialer intended (mis-routing or an address the other cluster's configuration points at) and requests were identity-checked; distinct by schedule hash"},
 	"C19": {ID: "C19", Engine: "raft", Profiles: []profShare{{"mix", 5}, {"snap", 5}},
 		Rule: "a run counts when >=20 status reports were checked, a role change was seen between reports and >=1 snapshot install, truncation or configuration revert happened; distinct by schedule hash"},
 }
